@@ -284,3 +284,79 @@ def check_module_state(ctx: Ctx, rule: str, an: Effects) -> int:
                 ctx.fail(rule, fi, f"@{dn}", "a process-wide cache keyed by argument equality (1 == 1.0 == True; equal-but-distinct objects) makes results depend on call history", fi.node)
     ctx.ok(rule, None, "no function writes module-level state", f"{len(an.summaries)} summaries scanned, {len(seen)} writes found", construct="qlasskit")
     return n
+
+
+# ------------------------------------------------------------------------------------- value objects
+
+MUTATING_METHODS = ("append", "extend", "insert", "pop", "remove", "reverse", "sort", "clear", "update", "add", "discard", "setdefault", "popitem")
+
+
+def check_frozen(ctx: Ctx, rule: str, cls_short: str, why: str) -> int:
+    """Instances of a value class (its fields are bound in __init__ only, on today's tree) are shared between the
+    tables that describe one function - the environment, QlassF.args, the compiler's argument list.  A field store or
+    an in-place update of a field's list anywhere else changes what every holder sees.  Receivers are resolved by
+    field name: a field name no other class of the repository declares identifies the class; for ambiguous names
+    only receivers bound to a constructor call / annotated with the class are judged.  A store into an object that
+    the same function has just constructed (and not yet handed out) is initialisation, not mutation."""
+    repo = ctx.repo
+    ci = repo.cls(cls_short)
+    init = ci.methods.get("__init__")
+    if init is None:
+        raise AnchorError(cls_short, "value class without __init__")
+    fields = [n.attr for n in walk_no_nested(init.node) if isinstance(n, ast.Attribute) and isinstance(n.ctx, ast.Store) and isinstance(n.value, ast.Name) and n.value.id == init.all_params[0]]
+    if not fields:
+        raise AnchorError(cls_short, "no fields bound in __init__")
+    names = {ci.name} | {alias for m in repo.modules.values() for alias, v in getattr(m, "globals_assigned", {}).items() if isinstance(v, ast.Name) and v.id == ci.name}
+    own = {f.qualname for f in ci.methods.values()}
+    other_fields = set()
+    for c2 in repo.classes.values():
+        if c2 is ci or ci in c2.mro():
+            continue
+        for mi in c2.methods.values():
+            if not mi.all_params:
+                continue
+            for n in walk_no_nested(mi.node):
+                if isinstance(n, ast.Attribute) and isinstance(n.ctx, ast.Store) and isinstance(n.value, ast.Name) and n.value.id == mi.all_params[0]:
+                    other_fields.add(n.attr)
+    unique = [f for f in fields if f not in other_fields]
+    n_sites = 0
+    for fi in repo.functions.values():
+        if isinstance(fi.node, ast.Lambda):
+            continue
+        top = fi
+        while top.parent is not None:
+            top = top.parent
+        if top.qualname in own and top.name == "__init__":
+            continue
+        fresh = set()
+        for n in walk_no_nested(fi.node):
+            if isinstance(n, ast.Assign) and len(n.targets) == 1 and isinstance(n.targets[0], ast.Name) and isinstance(n.value, ast.Call) and (dotted(n.value.func) or "").split(".")[-1] in names:
+                fresh.add(n.targets[0].id)
+        typed = set(fresh)
+        a = fi.node.args
+        for p in a.posonlyargs + a.args + a.kwonlyargs:
+            if p.annotation is not None and any(isinstance(x, ast.Name) and x.id in names for x in ast.walk(p.annotation)) and not any(isinstance(x, ast.Name) and x.id in ("List", "list", "Dict", "Tuple", "Optional") for x in ast.walk(p.annotation)):
+                typed.add(p.arg)
+
+        def judged(recv, attr) -> bool:
+            if attr in unique:
+                return not (isinstance(recv, ast.Name) and recv.id in fresh)
+            return attr in fields and isinstance(recv, ast.Name) and recv.id in typed and recv.id not in fresh
+
+        for n in walk_no_nested(fi.node):
+            site = None
+            if isinstance(n, ast.Attribute) and isinstance(n.ctx, (ast.Store, ast.Del)) and judged(n.value, n.attr):
+                site = (n, f"`{norm(n)}` is re-bound")
+            elif isinstance(n, ast.Call) and isinstance(n.func, ast.Attribute) and n.func.attr in MUTATING_METHODS and isinstance(n.func.value, ast.Attribute) and judged(n.func.value.value, n.func.value.attr):
+                site = (n, f"`{norm(n)[:60]}` updates the field's object in place")
+            elif isinstance(n, ast.Subscript) and isinstance(n.ctx, (ast.Store, ast.Del)) and isinstance(n.value, ast.Attribute) and judged(n.value.value, n.value.attr):
+                site = (n, f"`{norm(n)[:60]}` writes into the field's object")
+            elif isinstance(n, ast.AugAssign) and isinstance(n.target, ast.Attribute) and judged(n.target.value, n.target.attr):
+                site = (n, f"`{norm(n)[:60]}` updates the field")
+            elif isinstance(n, ast.Call) and isinstance(n.func, ast.Name) and n.func.id == "setattr" and len(n.args) == 3 and isinstance(n.args[1], ast.Constant) and n.args[1].value in unique:
+                site = (n, f"`{norm(n)[:60]}` re-binds the field")
+            if site is not None:
+                n_sites += 1
+                ctx.fail(rule, fi, f"{ci.name} objects are never modified after construction", f"{site[1]}: {why}", site[0])
+    ctx.ok(rule, init, f"{ci.name} fields {fields} are bound in the constructor only", f"{len(repo.functions)} functions scanned; fields unique to the class: {unique}", init.node)
+    return n_sites
